@@ -20,8 +20,9 @@ def _bounded(tier):
 
 PROP = Prop(
     'C17',
-    contracts=[REGISTRY[k] for k in FRAMES + PERSIST] + [REGISTRY[INT_PARAM], REGISTRY[INITVARS]],
-    claims=['*::frame.*', '*::C17.*', 'frame.write.*', 'frame.publish.cook_is_one_locked_region', '*initvars::C02.*', INT_PARAM + '::frame.*'],
+    contracts=[REGISTRY[k] for k in FRAMES + PERSIST] + [REGISTRY[INT_PARAM], REGISTRY[INITVARS],
+                                                          REGISTRY['DocumentTemplate.DT_String.String.cook#C01']],
+    claims=['*::frame.*', '*::C17.*', '*::C01.cook.*', 'frame.write.*', 'frame.publish.cook_is_one_locked_region', '*initvars::C02.*', INT_PARAM + '::frame.*'],
     structural=[write_sites, publication],
     native_default=native_c17.native_for,
     bounded=[_bounded],
